@@ -71,6 +71,15 @@ pub struct Store {
     extra_table_names: Vec<&'static str>,
 }
 
+#[cfg(feature = "verif")]
+impl Store {
+    /// Verification hook: every key of the six query indexes, table by table, in
+    /// LMDB's iteration order
+    pub fn verif_dump_keys(&self) -> Result<Vec<(&'static str, Vec<u8>)>, Error> {
+        self.indexes.verif_dump_keys()
+    }
+}
+
 impl Store {
     /// Setup persistent storage.
     ///
